@@ -125,8 +125,10 @@ func checkpath(file string) string {
 	privfile := file
 	if IsAnyBitsSet(Lprivacypath) {
 		for k, v := range knownPathMap {
-			if strings.HasPrefix(privfile, k) {
-				privfile = strings.ReplaceAll(privfile, k, v)
+			// the mapping must match whole path segments: /rootx is not under /root
+			if k != "" && strings.HasPrefix(privfile, k) &&
+				(len(privfile) == len(k) || privfile[len(k)] == '/' || strings.HasSuffix(k, "/")) {
+				privfile = v + privfile[len(k):]
 			}
 		}
 
